@@ -141,7 +141,7 @@ Lemma NI_iuw s fd : NI s -> NI (invalidate_unless_watched s fd) /\
    forall f orig rep, In (f, orig, rep) (batch (invalidate_unless_watched s fd)) -> f = -1 \/ f <> fd).
 Proof.
   intros Hn. destruct (iuw_cases s fd) as [[Hr ->]|[Hr ->]].
-  - split; auto. intros; congruence.
+  - split; auto; intros; congruence.
   - destruct (NI_invalidate s fd Hn). split; auto.
 Qed.
 
@@ -211,6 +211,7 @@ Proof.
   { rewrite H10. destruct (reg s1 (h_fd (hget s i))) as [j|] eqn:Hr; auto. exfalso.
     pose proof (H7 _ _ Hr) as Hr0. rewrite Hr0 in Ho. destruct (Nat.eqb_spec i j); [|discriminate].
     subst j. eapply H2; eauto. }
+  pose proof Hnone as Hnone'. rewrite H10 in Hnone'. specialize (H3 Hnone').
   assert (Hself : hget s2 i = h_set_pev (hget s1 i) ev).
   { unfold s2. rewrite io_start_self by auto. rewrite H8, mor_m0_l. reflexivity. }
   assert (Hreg : forall fd, reg s2 fd = if meqb m0 ev then reg s1 fd
@@ -540,7 +541,7 @@ Proof.
     destruct (m_err ev && negb (m_pri ev)) eqn:Heb; cbn [fst snd].
     + split.
       * destruct (NI_io_stop s0 i ALLEV H0 Hl (or_intror eq_refl)) as [X1 X2].
-        apply NI_hupd_unreg; auto.
+        apply NI_iuw. apply NI_hupd_unreg; auto.
       * cbn. split_all; eauto; try congruence. right. split_all; auto.
         apply andb_prop in Heb. destruct Heb as [Heb _]. subst ev. eapply disp_ev_ebadf; eauto.
     + split; auto. cbn. split_all; eauto; try congruence. left.
